@@ -129,6 +129,17 @@ Definition subs_under_dedicated (g : graph) : bool :=
   forallb (fun e => negb (cls_is g (ea e) KCP && cls_is g (eb e) KCP) ||
                     typ_is g (ea e) sDedicatedPort || typ_is g (eb e) sDedicatedPort) (gedges g).
 
+(* an interface has at most one service-port peer (connect_interface refuses an interface that has a peer, peer makes
+   new ports, add_link takes no service port): what _disconnect_from_services relies on *)
+Definition one_sp_peer (g : graph) : bool :=
+  forallb (fun n => negb (cls_eqb (ncls n) KCP) ||
+                    Nat.leb (length (filter (fun p => typ_is g p sServicePort) (map snd (second_nb g (nid n) Connects KLink KCP)))) 1)
+          (gnodes g).
+(* an interface hangs off a service over a `connects` edge only (conn_points_of looks over any edge class) *)
+Definition ns_cp_connects (g : graph) : bool :=
+  forallb (fun e => negb ((cls_is g (ea e) KNS && cls_is g (eb e) KCP) || (cls_is g (ea e) KCP && cls_is g (eb e) KNS)) ||
+                    rel_eqb (erel e) Connects) (gedges g).
+
 (* peer(a, b) names its link <a>-<b>-link without looking whether that name is free *)
 Definition peer_link_free (g : graph) (a b : str) : bool :=
   match name_of g a, name_of g b with
@@ -164,9 +175,15 @@ Definition op_pre_basic (g : graph) (o : op) : bool :=
      the link cannot be made (7b7379b); the interface is not itself a service port (documented domain);
    - disconnect_interface, unpeer, remove_child_interface: sub-interfaces hang off DedicatedPorts only (what
      add_child_interface enforces); disconnect_interface not on a service port;
-   - peer: two different services (peer(a, a) would give a two ports of one name) and a free link name. *)
+   - peer: two different services (peer(a, a) would give two ports of one name) and a free link name;
+   - remove_node / remove_component / remove_facility / remove_switch / remove_network_service (both levels): rem_pre. *)
+(* the removals: the library skips interfaces an earlier disconnection took away (5286851), and the three structural
+   side conditions above (they hold of every model the API builds, the rules do not state them) *)
+Definition rem_pre (fl : flags) (g : graph) : bool :=
+  fl_skip_gone fl && subs_under_dedicated g && ns_cp_connects g && one_sp_peer g.
 Definition op_pre (fl : flags) (g : graph) (o : op) : bool :=
   match o with
+  | ORemoveNode _ | ORemoveComponent _ _ | ORemoveFacility _ | ORemoveSwitch _ | ORemoveNS _ | ONodeRemoveNS _ _ => rem_pre fl g
   | OConnect s i => fl_connect_names fl && fl_connect_undo fl && negb (typ_is g i sServicePort)
   | ODisconnect s i => subs_under_dedicated g && negb (typ_is g i sServicePort)
   | OPeer a b => negb (str_eqb a b) && peer_link_free g a b
